@@ -136,7 +136,9 @@ class ProgramAnalysis(object):
             self.pj = pj
             self.dsp_skel = pj['fns'][pj['dsp_index']]['state_skeleton']
             self.state_size = skel_total(self.dsp_skel)
+            r['state_size'] = self.state_size
             self.leaves = skel_leaves(self.dsp_skel)
+            r['leaves'] = self.leaves
             wsk = self.cj['wasm'].get('dsp_state_skeleton')
             if wsk is not None and wsk != self.dsp_skel:
                 r['layout'].append('bytecode and wasm outputs publish different dsp state skeletons')
